@@ -59,7 +59,7 @@ use markup5ever::Attribute;
 use markup5ever::ExpandedName;
 use markup5ever::QualName;
 use xml5ever::interface::ElemName;
-use xml5ever::local_name;
+use xml5ever::{expanded_name, local_name, ns};
 
 /// The different kinds of nodes in the DOM.
 #[derive(Debug, Clone)]
@@ -138,14 +138,16 @@ impl Node {
             if let NodeData::Element { name, .. } = &current.data {
                 // Step 2.1 If ancestor is a datalist, hr, or option element, then return null.
                 if matches!(
-                    name.local_name(),
-                    &local_name!("datalist") | &local_name!("hr") | &local_name!("option")
+                    name.expanded(),
+                    expanded_name!(html "datalist")
+                        | expanded_name!(html "hr")
+                        | expanded_name!(html "option")
                 ) {
                     return None;
                 }
 
                 // Step 2.2 If ancestor is an optgroup element:
-                if name.local_name() == &local_name!("optgroup") {
+                if name.expanded() == expanded_name!(html "optgroup") {
                     // Step 2.2.1 If ancestorOptgroup is not null, then return null.
                     if did_see_ancestor_optgroup {
                         return None;
@@ -156,7 +158,7 @@ impl Node {
                 }
 
                 // Step 2.3 If ancestor is a select, then return ancestor.
-                if name.local_name() == &local_name!("select") {
+                if name.expanded() == expanded_name!(html "select") {
                     return Some(current);
                 }
             };
@@ -195,20 +197,18 @@ impl Node {
 
         // Step 2. Let selectedcontent be the first selectedcontent element descendant of select in tree order
         // if any such element exists; otherwise return null.
-        // FIXME: This does not visit the nodes in tree order
-        let mut remaining = VecDeque::default();
-        remaining.extend(self.children.borrow().iter().cloned());
+        // NOTE: The stack holds the nodes still to visit, next one last, so that nodes come off in tree order.
+        let mut remaining: Vec<Rc<Self>> = self.children.borrow().iter().rev().cloned().collect();
         let mut selectedcontent = None;
-        while let Some(node) = remaining.pop_front() {
-            remaining.extend(node.children.borrow().iter().cloned());
-
+        while let Some(node) = remaining.pop() {
             let NodeData::Element { name, .. } = &node.data else {
                 continue;
             };
-            if name.local_name() == &local_name!("selectedcontent") {
+            if name.expanded() == expanded_name!(html "selectedcontent") {
                 selectedcontent = Some(node);
                 break;
             }
+            remaining.extend(node.children.borrow().iter().rev().cloned());
         }
         let selectedcontent = selectedcontent?;
 
